@@ -894,6 +894,41 @@ theorem heap_patchOp_rerun_independent (op : String) (frm : Option Path) (path1 
     have := reach_old_of_write hl2 hcl' hc1lt hnr hb
     exact ⟨this.1, fun hb2 => absurd this.2 (Nat.not_lt.mpr (hf2 b hb2).1)⟩
 
+/-- … FOR ANY NUMBER OF EXECUTIONS.  No execution of a PatchOp (whatever its outcome) shrinks the heap
+    (`heap_patchOp_size_mono`), and a successful add / replace places a value all of whose cells lie
+    in the address interval `[size before the execution, size after it)`
+    (`heap_patchOp_value_independent`).  So for executions i < j of any history — with arbitrary
+    other pipeline PatchOps in between — every cell of what execution i placed (at its attach time)
+    is BELOW every cell of what execution j placed: the n placed subtrees are pairwise disjoint. -/
+theorem heap_patchOp_size_mono (op : String) (frm path : Option Path) (src : ValueSrc) (h : Heap) (root : Addr) :
+    h.size ≤ (patchOpDoH op frm path src h root).1.size :=
+  patchOpDoH_size_le op frm path src h root
+
+/-- the interval statement used above, in one piece: two executions anywhere in a history whose
+    heaps are ordered (`hmid`: the heap the later one starts from is at least as large as the heap
+    the earlier one ended with — by `heap_patchOp_size_mono` for every step in between) -/
+theorem heap_patchOp_runs_disjoint (op : String) (frm : Option Path) (p1 p2 : Path) (src : ValueSrc)
+    (ha ha' hb hb' : Heap) (root n1 n2 : Addr) (hop : op = "add" ∨ op = "replace")
+    (hcla : ha.Closed) (hclb : hb.Closed) (hroota : root < ha.size) (hrootb : root < hb.size)
+    (hs1 : srcNode ha root src = some n1) (hs2 : srcNode hb root src = some n2)
+    (he1 : patchOpDoH op frm (some p1) src ha root = (ha', .ok ()))
+    (he2 : patchOpDoH op frm (some p2) src hb root = (hb', .ok ()))
+    (hmid : ha'.size ≤ hb.size) :
+    ∃ (c1 c2 par1 par2 : Addr),
+      stepH ha' par1 (lastSegment p1) = some c1 ∧ stepH hb' par2 (lastSegment p2) = some c2 ∧
+      ∀ b b', Reach ha' c1 b → Reach hb' c2 b' → b < b' := by
+  obtain ⟨h1, c1, par1, cell1, hc1, _, hpar1, hh1, hstep1⟩ := patchOp_attach_shape hop hcla hroota hs1 he1
+  obtain ⟨h2, c2, par2, cell2, hc2, _, hpar2, hh2, hstep2⟩ := patchOp_attach_shape hop hclb hrootb hs2 he2
+  have hf1 := copy_fresh hc1 hpar1 hh1
+  have hf2 := copy_fresh hc2 hpar2 hh2
+  have hsz1 : ha'.size = h1.size := by rw [hh1]; exact Heap.size_write _ _ _
+  refine ⟨c1, c2, par1, par2, hstep1, hstep2, ?_⟩
+  intro b b' hb1 hb2
+  have k1 : b < h1.size := (hf1 b hb1).2
+  have k2 : hb.size ≤ b' := (hf2 b' hb2).1
+  have k3 : h1.size ≤ hb.size := hsz1 ▸ hmid
+  exact Nat.lt_of_lt_of_le (Nat.lt_of_lt_of_le k1 k3) k2
+
 /-! ### The pre-fix shapes alias (negative results, proved on a concrete heap)
 
   `qHeap`: 0 nilLeaf · 1 leaf "s" · 2 {k: #1} — the op's own value node · 3 {} · 4 {t: #3} — the
